@@ -29,8 +29,10 @@ pub trait IbcContextShim: StateRead { fn ephemeral_get_ibc_context(&mut self) ->
 impl<T: StateRead + ?Sized> IbcContextShim for T {}
 impl From<&TracePrefixed> for Denom { fn from(t: &TracePrefixed) -> Self { Denom::TracePrefixed(*t) } }
 pub struct MsgTimeout { pub packet: Packet }
-/// acknowledgement bytes: None = not a token-transfer acknowledgement, Some(ok)
-#[derive(Clone, Copy, Debug)] pub struct AckField(pub Option<bool>);
+/// acknowledgement bytes: what they parse to (None = not a token-transfer acknowledgement, Some(ok)) and whether they are the canonical encoding of that value
+/// (JSON admits several encodings of one acknowledgement; byte comparison and parsing are different questions)
+#[derive(Clone, Copy, Debug)] pub struct AckField(pub Option<bool>, pub bool);
+impl PartialEq<std::vec::Vec<u8>> for AckField { fn eq(&self, o: &std::vec::Vec<u8>) -> bool { self.1 && o.len() == 1 && self.0 == Some(o[0] == 1) } }
 impl AckField { pub fn as_slice(&self) -> AckField { *self } }
 pub struct MsgAcknowledgement { pub packet: Packet, pub acknowledgement: AckField }
 impl VxFromSlice<AckField> for TokenTransferAcknowledgement { fn vx_from_slice(i: AckField) -> Option<Self> { i.0.map(|ok| if ok { TokenTransferAcknowledgement::Success } else { TokenTransferAcknowledgement::Error(String::new()) }) } }
@@ -92,7 +94,7 @@ HARNESS = r'''
     #[kani::stub(alloc::fmt::format, crate::vx_stub_format)]
     fn acknowledgement_refunds_iff_error_ack() {
         let s = setup();
-        let ack = AckField(if kani::any() { Some(kani::any()) } else { None });
+        let ack = AckField(if kani::any() { Some(kani::any()) } else { None }, kani::any());
         let r = <Ics20Transfer as AppHandlerExecute>::acknowledge_packet_execute(State, &MsgAcknowledgement { packet: s.packet, acknowledgement: ack });
         match ack.0 {
             Some(true) => { assert!(r.is_ok()); assert!(store().nothing_written() && store().n_deposits == 0); }     // the transfer succeeded on the other chain: nothing comes back
